@@ -1,6 +1,7 @@
 """C13 - ill-formed LVS schemas and models are rejected; accepted models always terminate
 (src/ndn/app_support/light_versec/{compiler,checker}.py, docs/src/lvs/binary-format.rst)."""
 import copy
+import json
 import types
 import lvs_common as L
 import strict_tlv as S
@@ -9,7 +10,7 @@ from props import lvs_extract
 
 PROP = 'C13'
 TITLE = 'Ill-formed schemas and models are rejected; accepted models always terminate'
-LEAN_TARGETS = ['NdnProofs.Props.C13', 'NdnProofs.Props.C13Tables']
+LEAN_TARGETS = ['NdnProofs.Props.C13', 'NdnProofs.Props.C13Keys', 'NdnProofs.Props.C13Load', 'NdnProofs.Props.C13Tables']
 THEOREMS = [
     'Ndn.C13.sanity_iff_documented', 'Ndn.C13.modelError_iff_not_sane', 'Ndn.C13.load_rejects_bad_node_id', 'Ndn.C13.accepted_sane',
     'Ndn.C13.match_terminates', 'Ndn.C13.match_stable', 'Ndn.C13.check_terminates',
@@ -20,6 +21,13 @@ THEOREMS = [
     'Ndn.C13.compile_static_sane', 'Ndn.C13.compile_sane_partial',
     'Ndn.C13.signCycle_shapeSelfSigning', 'Ndn.C13.compile_sane_src', 'Ndn.C13.static_sane_src',
     'Ndn.C13.mergedSigner_counterexample', 'Ndn.C13.mergedSigner_selfSigning',
+    # the exact criterion: merge-key paths (chains), keys of name patterns (text)
+    'Ndn.C13.signCycle_iff_keySelfSigning', 'Ndn.C13.compile_accepted_iff_keys', 'Ndn.C13.signCycle_srcKeySelfSigning',
+    'Ndn.C13.compile_sane_keys', 'Ndn.C13.static_sane_keys', 'Ndn.C13.compile_accepted_iff_src', 'Ndn.C13.static_accepted_iff_src',
+    'Ndn.C13.srcKey_finer_than_shape', 'Ndn.C13.keySplit_example', 'Ndn.C13.prefixMerged_example',
+    # Checker.load on every byte string (decoder model of C07/C08 composed with the loader model)
+    'Ndn.C13.load_decode_errors', 'Ndn.C13.load_error_classes', 'Ndn.C13.load_accepted_terminates', 'Ndn.C13.load_total',
+    'Ndn.C13.load_modelError_not_sane', 'Ndn.C13.lvsModel_schema_ok',
     # generated tables (lean/NdnGen) pinned to the model
     'Ndn.C13.versions_table', 'Ndn.C13.binary_layout_table', 'Ndn.C13.binary_layout_is_shipped_schema',
     'Ndn.C13.loader_rules_table', 'Ndn.C13.compiler_errors_table',
@@ -44,14 +52,36 @@ PARTIAL = {
         'honest negative is proved too: an acyclic RULE-level signing graph is not enough - #a: "k"/x <= #b, #b: "k"/x has no static error '
         'and no rule-level cycle, compiles, and the loader refuses the model with SemanticError, because both rules end at one node, which '
         'lists itself as signer (mergedSigner_counterexample, by kernel evaluation of the compiler and loader models; the real compile_lvs / '
-        'Checker do the same: corpus case merged-signer is replayed on every run). NOT proved: the exact criterion - two name patterns '
-        'share a node iff their merge-key paths are equal (same literals, same pattern numbers with the same constraint sets at first '
-        'occurrences); the shape criterion is coarser (e.g. #a: "k"/x <= #b, #b: "k"/y is accepted by the code but not covered by '
-        'compile_sane_src), which is also why the oracle makes no demand on such schemas.',
+        'Checker do the same: corpus case merged-signer is replayed on every run). The EXACT criterion is proved (Props/C13Keys.lean): '
+        'every node of the compiled tree has a merge-key path (component values; for a pattern the string pattern_movement returns: its '
+        'number and, where it is met first, the constraints on it), every chain ends at the node of its key path and chains with '
+        'different key paths end at different nodes (genNode_keys), every node is reachable, so the loader refuses the compiled model '
+        'with SemanticError iff the key paths of the chains sign each other in a cycle (signCycle_iff_keySelfSigning, '
+        'compile_accepted_iff_keys; chains = expansions of the definitions, C11 chains_are_expansions). Read at the level of the text '
+        '(Flat.keys: component values, a named pattern with the constraints on it where it is met first, a temporary pattern with its '
+        'constraints; "name pattern" = expansion of a definition; two name patterns are the same when their keys are equal): a node-level '
+        'cycle is a cycle among keys of name patterns for EVERY schema (signCycle_srcKeySelfSigning, compile_sane_keys, static_sane_keys; '
+        'strictly finer than the shape criterion: srcKey_finer_than_shape, keySplit_example - #a: "k"/x <= #b, #b: "k"/y is accepted), and '
+        'for every schema that writes NO temporary pattern the criterion is exact: accepted iff no name pattern is its own signer, else '
+        'SemanticError (compile_accepted_iff_src, static_accepted_iff_src; prefixMerged_example: #a: "k"/x, #b: "k"/x/"a" <= #a, '
+        '#c: "k"/x <= #b is refused through the node #a and #c share). This plugin\'s oracle demands acceptance whenever an independent '
+        'Python transcription of that key criterion (coarsened: constraints as multisets, temporaries without identity) finds no cycle. '
+        'NOT proved: an exact criterion in terms of the text alone for schemas WITH temporary patterns - the compiler also compares '
+        'the number it gave to a temporary occurrence (two chains share it only when both inline the same chain of the same rule), '
+        'which the source semantics of lvs.rst has no name for; for such schemas the exact criterion is the chain-level one and the '
+        'text-level one is necessary only. Loader on bytes (Props/C13Load.lean): Checker.load = LvsModel.parse (the decoder model of '
+        'C07/C08 over the LvsModel schema regenerated from binary.py) then _sanity_check; for EVERY byte string it raises a documented '
+        'decoding error, or LvsModelError / SemanticError (TypeError exactly when the bytes carry no StartId while version and node ids '
+        'are in order - not a documented sanity rule, reported as observation), or returns a model on which every search ends within '
+        'stepBound(maxPE m, |name|) (load_total). The bound is in the largest number of pattern edges of a node, not in the number of '
+        'nodes: a sane model may list the same destination on several edges, so no bound in (nodes, name length) alone exists; a model '
+        'without NamedPatternCnt loads, and its searches are those of any count cut at the first TypeError (not modelled).',
 }
 TRUSTED = [
-    'C13: the binary model enters the Lean model after LvsModel.parse (the TLV codec is C08); a model whose StartId or '
-    'NamedPatternCnt is absent is outside the Lean model (Python raises TypeError) and only the oracle looks at it',
+    'C13: single-field corruptions enter the Lean loader model after LvsModel.parse (as a token written by the harness); byte strings '
+    'enter it as bytes (Ndn.Lvs.loadBytes = the C07/C08 decoder model over Gen.C08.binary_LvsModel + toRaw + sanityCheck). A model '
+    'without StartId is TypeError in both; on a model without NamedPatternCnt only the load verdict is compared (the search raises '
+    'TypeError at its first binding in Python, which the matcher model does not represent)',
     'C13: Python\'s recursion limit in _sanity_check.dfs is not modelled (the Lean dfs has fuel nodes+1, proved sufficient '
     'for every sane model)',
     'C13: lark (text -> AST) and the pretty-printer of the schema generator; the Lean compiler model receives the AST the '
@@ -59,7 +89,15 @@ TRUSTED = [
     'grammar guarantees and is a hypothesis of the compile_* sanity theorems',
     "C13: lean/NdnGen/C13.lean is regenerated on every run by harness/props/lvs_extract.py (live constants of the imported modules; control-flow facts as normalised source text, ast.unparse) and pinned to the model by the *_table theorems (NdnProofs/Props/C13Tables.lean, closed by evaluation): VERSION / MIN_SUPPORTED_VERSION (the bounds of versionOK and the version the compiler model stamps), binary.TypeNumber and the field lists of the binary model classes (= the layout the Lean structures follow, and token for token the LvsModel schema shipped by C08's generated table), the ordered list of (exception class, guard, message) of every raise of _sanity_check, top_order and the Compiler methods, the except tuple of _gen_pattern_numbers, the exception classes the modules define. Trusted: the extractor; a pinned TEXT (a test, a call) ties the model to the source only as far as the doc comment of the theorem reads it correctly - the behaviour itself is still tied by the correspondence run",
 ]
-RULE = ('two streams. (a) schemas: generated well-formed schemas (references incl. the same rule twice, redefinitions, '
+RULE = ('four streams. (c) merge motifs: schemas made to share nodes - several rules over one base name pattern (identical, another '
+        'named pattern or another / permuted / additional constraint at one place, continued below the shared node, or inlining one '
+        'shared rule so that temporary patterns keep their number) with signers along a rule-level DAG, so that every refusal is a merged '
+        'signing cycle; judged by the key criterion (acceptance demanded when no name pattern is its own signer by keys) and compared '
+        'with the Lean compiler + loader; corpus: merged-signer, key-split, prefix-merged. (d) bytes: encoded models damaged below the '
+        'level of elements (bytes replaced / inserted / removed, cut anywhere), an element of the format or an unknown one spliced in at '
+        'any depth, header elements reordered or dropped, element soup - loaded with Checker.load and with the Lean loadBytes '
+        '(exception class, then matches and checks). '
+        '(a) schemas: generated well-formed schemas (references incl. the same rule twice, redefinitions, '
         'temporary rules/patterns, multi-set constraints, user functions, signing DAGs) and the same schemas with ONE static '
         'error injected (undefined/temporary rule referenced in a name or as signer, reference cycle, signing cycle, '
         'constraint on / option or argument naming a pattern that occurs nowhere, temporary pattern as option/argument) at a '
@@ -67,7 +105,8 @@ RULE = ('two streams. (a) schemas: generated well-formed schemas (references inc
         'that is not its last one; three-rule reference / signing cycles; a constraint on a temporary that only another rule writes), '
         'plus 70 more well-formed schemas for the positive clause; (b) models: every kind of single-field corruption of the compiled '
         'binary model (version, start id, pattern count, node id, parent incl. root and root children, edge destination, '
-        'edge value/tag, dropped edges/constraints/options/nodes, option shape, user-function id, signer lists, swapped '
+        'edge value/tag, dropped edges/constraints/options/nodes, option shape - all 8 presence combinations of (Value, Tag, UserFn) on a '
+        'ConstraintOption (quick: one option per model, thorough: every option), each also with an empty / absent FnId -, user-function id, signer lists, swapped '
         'nodes, an extra unreachable node, versions around the one version binary-format.rst describes - the oracle takes the '
         'recognised version from the document, not from binary.py; quick: one structural corruption in every kind of node: root, leaf, '
         'only pattern edges, only value edges, both), re-encoded with the real encoder - then optionally truncated at an element '
@@ -226,6 +265,13 @@ def mutations(m):
                 muts.append(['pe', i, j, 'cons_drop', k])
                 for q, op in enumerate(cl.options):
                     muts += [['opt', i, j, k, q, 'clear'], ['opt', i, j, k, q, 'drop']]
+                    # every presence combination of (Value, Tag, UserFn) - "exactly one of Value, Tag and UserFn is set" -
+                    # with a named user function, and with one whose FnId is empty / absent
+                    for combo in ([v, t, f] for v in (0, 1) for t in (0, 1) for f in (0, 1)):
+                        muts.append(['opt', i, j, k, q, 'shape', combo, 'id'])
+                        if combo[2]:
+                            muts.append(['opt', i, j, k, q, 'shape', combo, 'emptyid'])
+                            muts.append(['opt', i, j, k, q, 'shape', combo, 'noid'])
                     if op.tag is None:
                         muts.append(['opt', i, j, k, q, 'add_tag', 1])
                     if op.value is None:
@@ -305,6 +351,20 @@ def apply_mutation(m, mut, bny):
             op.tag = mut[6]
         elif what == 'add_value':
             op.value = bytes.fromhex(mut[6])
+        elif what == 'shape':
+            v, t, f = mut[6]
+            op.value = (op.value if op.value else bytes.fromhex('080161')) if v else None
+            op.tag = (op.tag if op.tag is not None else 1) if t else None
+            if f:
+                if op.fn is None:
+                    op.fn = bny.UserFnCall()
+                    op.fn.fn_id, op.fn.args = '$eq', []
+                if mut[7] != 'id':
+                    op.fn.fn_id = '' if mut[7] == 'emptyid' else None
+                elif not op.fn.fn_id:
+                    op.fn.fn_id = '$eq'
+            else:
+                op.fn = None
         elif what == 'fnid':
             op.fn.fn_id = mut[6]
         elif what == 'arg_tag':
@@ -331,6 +391,14 @@ def wire_elements(wire):
         ln, off = num(off)
         off += ln
     return offs + [len(wire)]
+
+
+def wire_elements_safe(wire):
+    try:
+        offs = wire_elements(wire)
+        return offs if offs[-1] == len(wire) and all(a < b for a, b in zip(offs, offs[1:])) else [0, len(wire)]
+    except Exception:               # noqa
+        return [0, len(wire)]
 
 
 def apply_wire_mutation(wire, mut):
@@ -420,7 +488,7 @@ def wire_edit(wire, path, op, start=0, end=None):
         if i != path[0]:
             out += el
         elif len(path) == 1:
-            out += b'' if op == 'del' else el + el
+            out += b'' if op == 'del' else el + el if op == 'dup' else el + op[1] if op[0] == 'after' else op[1] + el
         else:
             body = wire_edit(wire, path[1:], op, vs, ve)
             out += _tl(t) + _tl(len(body)) + body
@@ -452,6 +520,8 @@ def wire_mutations(m, rng=None, per_type=3):
 def mut_kind(mu):
     if mu[0] == 'wire':
         return 'wire:' + mu[1] + ('@' + mu[3] if mu[1] in ('del', 'dup') else '')
+    if mu[0] == 'opt' and mu[5] == 'shape':
+        return 'opt:shape:' + ''.join('VTF'[i] if b else '-' for i, b in enumerate(mu[6])) + ('' if mu[7] == 'id' else ':' + mu[7])
     return mu[0] + ':' + str(mu[2] if mu[0] == 'node' else (mu[3] if mu[0] in ('ve', 'pe') else (mu[5] if mu[0] == 'opt' else '')))
 
 
@@ -496,9 +566,210 @@ def doc_rules_broken(m, bny):
     return None
 
 
+# ------------------------------------------------------------------ "the same name pattern" (oracle)
+def _copt(o):
+    if o[0] == 'lit':
+        return ('lit', bytes(L.comp(o[1])).hex())
+    if o[0] == 'pat':
+        return ('pat', o[1])
+    return ('fn', o[1], tuple(_copt(a) for a in o[2]))
+
+
+def _ccons(opts):
+    return tuple(sorted(_copt(o) for o in opts))
+
+
+def chain_key(atoms, cons):
+    """the key of an expanded name pattern, as the statement's "name pattern" is read (theorems compile_sane_keys /
+    compile_accepted_iff_src): component values; a named pattern with the constraints on it where it is met first; a
+    temporary pattern with its constraints.  Constraints are compared as multisets of option sets and temporary
+    patterns without identity - both COARSER than what the compiler compares, so two name patterns the compiler puts
+    on one node always have equal keys here and the oracle never demands acceptance of a schema with a merged cycle."""
+    seen, key = set(), []
+    for a in atoms:
+        if a[0] == 'lit':
+            key.append(('lit', bytes(a[1]).hex()))
+        elif a[0] == 'named':
+            cs = () if a[1] in seen else tuple(sorted(_ccons(opts) for tg, opts in cons if tuple(tg) == ('named', a[1])))
+            seen.add(a[1])
+            key.append(('named', a[1], cs))
+        else:
+            key.append(('temp', tuple(sorted(_ccons(opts) for tg, opts in cons if tg[0] == 'temp' and a[1] in tg[1]))))
+    return tuple(key)
+
+
+def key_self_sign(spec):
+    """is some name pattern, directly or transitively, its own signer - name patterns told apart by their keys?"""
+    chains = spec.all_chains()
+    keys = [chain_key(atoms, cons) for _, _, atoms, cons, _ in chains]
+    g = {}
+    for i, (_, _, _, _, sign) in enumerate(chains):
+        for j, (rid2, _, _, _, _) in enumerate(chains):
+            if rid2 in sign:
+                g.setdefault(('c', i), set()).add(('s', j))
+            if keys[i] == keys[j]:
+                g.setdefault(('s', i), set()).add(('c', j))
+    return spec._cyclic(g)
+
+
+def temp_free(schema):
+    return not any(c[0] == 'pat' and L.is_temp(c[1]) for r in schema['rules'] for c in r['name'])
+
+
+def merge_schema(rng):
+    """schemas made to share nodes: several rules over one base name pattern - identical, with another named pattern /
+    another constraint (set, order) at one place, continued below it, or inlining one shared rule (so that temporary
+    patterns keep their number) - and signers among them along a rule-level DAG (so every rejection is a merged cycle)"""
+    lits = rng.sample(L.LITS, 3)
+    named = rng.sample(L.NAMED, 3)
+
+    def lit():
+        return ['lit', rng.choice(lits)]
+
+    def copt():
+        r = rng.random()
+        if r < 0.7:
+            return lit()
+        fn = rng.choice(['$eq', '$eq', '$odd'])
+        return ['fn', fn, [lit() for _ in range(rng.choice([1, 1, 2]))]]
+
+    def copts():
+        return [copt() for _ in range(rng.choice([1, 1, 2]))]
+    base = [lit()]
+    for _ in range(rng.choice([1, 1, 2])):
+        r = rng.random()
+        base.append(lit() if r < 0.3 else ['pat', rng.choice(named[:2])] if r < 0.85 else ['pat', rng.choice(L.TEMPS)])
+    rules = []
+    shared = rng.random() < 0.35
+    if shared:
+        bcons = []
+        pats = [c[1] for c in base if c[0] == 'pat']
+        if pats and rng.random() < 0.5:
+            bcons = [[{'pat': rng.choice(pats), 'opts': copts()}]]
+            if rng.random() < 0.3:
+                bcons.append([{'pat': rng.choice(pats), 'opts': copts()}])
+        rules.append({'id': '#m0', 'name': [list(c) for c in base], 'cons': bcons, 'sign': []})
+    n = rng.randint(2, 4)
+    for i in range(1, n + 1):
+        name = [['ref', '#m0']] if shared and rng.random() < 0.7 else [list(c) for c in base]
+        cons = []
+        r = rng.random()
+        flat = [c for c in name if c[0] != 'ref']
+        if r < 0.25 and flat:                                   # another pattern at one place
+            k = rng.randrange(len(flat))
+            if flat[k][0] == 'pat':
+                flat[k][1] = rng.choice(named)
+        elif r < 0.5:                                           # continued below the shared node
+            name.append(lit() if rng.random() < 0.6 else ['pat', rng.choice(named)])
+        own = [c[1] for c in name if c[0] == 'pat'] + ([c[1] for c in base if c[0] == 'pat' and not L.is_temp(c[1])] if name[0][0] == 'ref' else [])
+        if own and rng.random() < 0.55:                         # constraints: same / other / permuted / two sets
+            p = rng.choice(own)
+            terms = [{'pat': p, 'opts': copts()}]
+            if rng.random() < 0.4:
+                terms.append({'pat': rng.choice(own), 'opts': copts()})
+            if rng.random() < 0.3:
+                terms.reverse()
+            cons = [terms]
+            if rng.random() < 0.25:
+                cons.append([{'pat': rng.choice(own), 'opts': copts()}])
+        rules.append({'id': '#m%d' % i, 'name': name, 'cons': cons, 'sign': []})
+    # constraints of a rule copied to another one (equal keys on purpose)
+    if len(rules) > 2 and rng.random() < 0.5:
+        a, b = rng.sample(rules[1 if shared else 0:], 2)
+        if [c for c in a['name']] == [c for c in b['name']]:
+            b['cons'] = copy.deepcopy(a['cons'])
+    # ... or differing from it in one literal (an option value or a user-function argument) only
+    if len(rules) > 2 and rng.random() < 0.35:
+        a, b = rng.sample(rules[1 if shared else 0:], 2)
+        if a['cons'] and [c for c in a['name']] == [c for c in b['name']]:
+            b['cons'] = copy.deepcopy(a['cons'])
+            o = rng.choice(rng.choice(b['cons'][0])['opts'])
+            tgt = o if o[0] == 'lit' else rng.choice(o[2]) if o[0] == 'fn' and o[2] else None
+            if tgt is not None and tgt[0] == 'lit':
+                tgt[1] = rng.choice([x for x in L.LITS if x != tgt[1]])
+    ids = [r['id'] for r in rules]
+    rank = {rid: k for k, rid in enumerate(rng.sample(ids, len(ids)))}
+    for r in rules:
+        higher = [q for q in ids if rank[q] > rank[r['id']]]
+        if higher and rng.random() < 0.7:
+            r['sign'] = sorted(set(rng.sample(higher, min(len(higher), rng.choice([1, 1, 2])))))
+    # a named pattern used in a constraint must be written in some name
+    everywhere = {c[1] for r in rules for c in r['name'] if c[0] == 'pat' and not L.is_temp(c[1])}
+    for r in rules:
+        own_t = {c[1] for c in r['name'] if c[0] == 'pat' and L.is_temp(c[1])}
+        r['cons'] = [[t for t in cs if (t['pat'] in own_t if L.is_temp(t['pat']) else t['pat'] in everywhere)] for cs in r['cons']]
+        r['cons'] = [cs for cs in r['cons'] if cs]
+    rng.shuffle(rules)
+    return {'rules': rules}
+
+
+LVS_TYPES = [0x21, 0x23, 0x25, 0x27, 0x29, 0x31, 0x33, 0x41, 0x43, 0x51, 0x53, 0x55, 0x57, 0x61, 0x63, 0x67, 0x69]
+
+
+def byte_mutations(rng, wire, count):
+    """byte strings around an encoded model: not well-formed TLV any more, or well-formed TLV that is not a model"""
+    out = []
+    n = len(wire)
+    for _ in range(count):
+        w = bytearray(wire)
+        r = rng.random()
+        if r < 0.30 and n:                                       # one to three bytes replaced
+            for _ in range(rng.choice([1, 1, 2, 3])):
+                k = rng.randrange(n)
+                w[k] = rng.choice([0, 1, 0xfd, 0xff, w[k] ^ (1 << rng.randrange(8)), rng.randrange(256), rng.choice(LVS_TYPES)])
+            kind = 'subst'
+        elif r < 0.42 and n:                                     # a byte inserted / removed
+            k = rng.randrange(n)
+            if rng.random() < 0.5:
+                del w[k]
+            else:
+                w.insert(k, rng.choice([0, 1, 2, 0xfd, rng.randrange(256)]))
+            kind = 'indel'
+        elif r < 0.54:                                           # cut anywhere
+            w = w[:rng.randrange(n + 1)]
+            kind = 'cut'
+        elif r < 0.76:                                           # an element spliced in before / after an element, at any depth
+            t = rng.choice(LVS_TYPES + LVS_TYPES + [0x20, 0x62, 0x64, 0x68, 0xfe, 1000, 1001])
+            body = bytes(rng.choice([0, 1, 2, 0x25, 0x61, rng.randrange(256)]) for _ in range(rng.choice([0, 1, 1, 2, 4, 5])))
+            if rng.random() < 0.4:                                # ... itself holding a well-formed element
+                body = _tl(rng.choice(LVS_TYPES)) + _tl(1) + bytes([rng.randrange(4)])
+            paths = [pth for pth, _ in wire_paths(bytes(wire))]
+            if paths:
+                w = wire_edit(bytes(wire), rng.choice(paths), (rng.choice(['after', 'before']), _tl(t) + _tl(len(body)) + body))
+            kind = 'splice'
+        elif r < 0.88:                                           # short soup of format elements
+            w = bytearray()
+            for _ in range(rng.randint(0, 5)):
+                t = rng.choice(LVS_TYPES + [0x61, 0x25, 0x69, 0x63])
+                body = bytes(rng.choice([0, 0, 1, 0x10, rng.randrange(256)]) for _ in range(rng.choice([0, 1, 1, 4])))
+                if t == 0x61 and rng.random() < 0.7:
+                    body = doc_version().to_bytes(4, 'big')
+                w += _tl(t) + _tl(len(body)) + body
+            kind = 'soup'
+        else:                                                    # the header elements reordered / one of them dropped
+            offs = wire_elements(bytes(wire))
+            els = [bytes(wire[offs[i]:offs[i + 1]]) for i in range(len(offs) - 1)]
+            head, rest = els[:3], els[3:]
+            if rng.random() < 0.5 and head:
+                del head[rng.randrange(len(head))]
+            else:
+                rng.shuffle(head)
+            w = b''.join(head + rest)
+            kind = 'header'
+        out.append((kind, bytes(w)))
+    return out
+
+
 # ------------------------------------------------------------------------------------------- cases
 MERGED_SIGNER = {'rules': [{'id': '#a', 'name': [['lit', 'k'], ['pat', 'x']], 'cons': [], 'sign': ['#b']},
                            {'id': '#b', 'name': [['lit', 'k'], ['pat', 'x']], 'cons': [], 'sign': []}]}
+
+
+KEY_SPLIT = {'rules': [{'id': '#a', 'name': [['lit', 'k'], ['pat', 'x']], 'cons': [], 'sign': ['#b']},
+                       {'id': '#b', 'name': [['lit', 'k'], ['pat', 'y']], 'cons': [], 'sign': []}]}
+PREFIX_MERGED = {'rules': [{'id': '#a', 'name': [['lit', 'k'], ['pat', 'x']], 'cons': [], 'sign': []},
+                           {'id': '#b', 'name': [['lit', 'k'], ['pat', 'x'], ['lit', 'a']], 'cons': [], 'sign': ['#a']},
+                           {'id': '#c', 'name': [['lit', 'k'], ['pat', 'x']], 'cons': [], 'sign': ['#b']}]}
 
 
 def _compile(schema):
@@ -518,6 +789,12 @@ def cases(rng, tier):
     fns = L.user_fns(L.FN_NAMES)
     # corpus: the schema of theorem mergedSigner_counterexample (rule-level signing graph acyclic, same name pattern twice)
     yield {'kind': 'schema', 'schema': MERGED_SIGNER, 'inject': None, 'corpus': 'merged-signer'}
+    # theorems keySplit_example (same shape, other named pattern: accepted) and prefixMerged_example (#a and #c share a
+    # node below which #b continues; #c <= #b <= #a: refused although the rule-level graph is acyclic)
+    yield {'kind': 'schema', 'schema': KEY_SPLIT, 'inject': None, 'corpus': 'key-split'}
+    yield {'kind': 'schema', 'schema': PREFIX_MERGED, 'inject': None, 'corpus': 'prefix-merged'}
+    for w in ('', '610400011000', '6104000110', '6104000110002501006901006303250100', '61040001100025010063032501006300'):
+        yield {'kind': 'bytes', 'wire': w, 'how': 'corpus', 'names': [[]], 'fns': L.FN_NAMES}
     for _ in range(n_sch):
         schema = L.gen_schema(rng)
         spec = L.Spec(schema, fns)
@@ -572,7 +849,13 @@ def cases(rng, tier):
             header.sort(key=lambda mu: mu[2])
             # ... and the NodeId of the first node (id 0: what a default value of the field would supply)
             header += sorted((mu for mu in muts if mu[0] == 'wire' and mu[1] == 'del' and mu[3] == '63/25'), key=lambda mu: mu[2])[:1]
+            # every presence combination of (Value, Tag, UserFn) on one ConstraintOption of the model (thorough: on every one)
+            shape = [mu for mu in muts if mu[0] == 'opt' and mu[5] == 'shape']
+            if shape:
+                where = rng.choice(sorted({tuple(mu[1:5]) for mu in shape}))
+                shape = [mu for mu in shape if tuple(mu[1:5]) == where]
             muts = pick[:per_mut] + muts[:3] + strat + [mu for mu in header if mu not in pick[:per_mut]]
+            muts += [mu for mu in shape if mu not in muts]
         names = L.gen_names(rng, schema, spec, 5 if tier == 'quick' else 8)
         for mu in muts:
             yield {'kind': 'model', 'schema': schema, 'mut': mu, 'names': names, 'fns': rng.choice([L.FN_NAMES, L.FN_NAMES, ['$eq']])}
@@ -581,9 +864,33 @@ def cases(rng, tier):
     # more well-formed schemas (compile + loader only: cheap) for the positive clause
     for _ in range(70 if tier == 'quick' else 400):
         yield {'kind': 'schema', 'schema': L.gen_schema(rng), 'inject': None}
+    # schemas made to share nodes (equal / nearly equal name patterns, common prefixes, a shared embedded rule) with
+    # signers among them: the exact criterion for a merged signing cycle
+    for _ in range(90 if tier == 'quick' else 600):
+        yield {'kind': 'schema', 'schema': merge_schema(rng), 'inject': None, 'merge': True}
+    # Checker.load on byte strings: an encoded model damaged below the level of elements, spliced, reordered; element soup
+    for _ in range(12 if tier == 'quick' else 60):
+        schema = L.gen_schema(rng)
+        try:
+            if L.Spec(schema, fns).static_errors():
+                continue
+            wire = bytes(_compile(schema).encode())
+        except Exception:           # noqa
+            continue
+        names = L.gen_names(rng, schema, L.Spec(schema, fns), 3)
+        for kd, w in byte_mutations(rng, wire, 14 if tier == 'quick' else 40):
+            yield {'kind': 'bytes', 'wire': w.hex(), 'how': kd, 'names': names, 'fns': L.FN_NAMES}
 
 
 def shrink(case):
+    if case['kind'] == 'bytes':
+        w = bytes.fromhex(case['wire'])
+        offs = wire_elements_safe(w)
+        for i in range(len(offs) - 1):                   # drop one top-level element
+            yield dict(case, wire=(w[:offs[i]] + w[offs[i + 1]:]).hex())
+        if len(case['names']) > 1:
+            yield dict(case, names=case['names'][:1])
+        return
     for s in L.shrink_schema(case['schema']):
         if case['kind'] == 'schema':
             yield dict(case, schema=s)
@@ -601,6 +908,8 @@ _last_compiled = []
 def run_impl(case):
     Component, Name, compile_lvs, Checker, SemanticError, LvsModelError, DFN, bny = L.mods()
     fns = L.user_fns(case.get('fns', L.FN_NAMES))
+    if case['kind'] == 'bytes':
+        return run_bytes(case, fns)
     schema = case['schema']
     if case['kind'] == 'schema':
         spec = L.Spec(schema, fns)
@@ -609,7 +918,12 @@ def run_impl(case):
             may_self = False if errs else spec.may_self_sign()
         except RecursionError:
             errs, may_self = ['ref-cycle'], False
-        res = {'static_errors': errs, 'may_self_sign': may_self, 'token': None}
+        try:
+            key_self = False if errs else key_self_sign(spec)
+        except RecursionError:
+            key_self = True
+        res = {'static_errors': errs, 'may_self_sign': may_self, 'key_self_sign': key_self, 'temp_free': temp_free(schema),
+               'token': None}
         try:
             model = compile_lvs(L.pp(schema))
         except Exception as e:          # noqa
@@ -674,8 +988,40 @@ def run_impl(case):
     return res
 
 
+def run_bytes(case, fns):
+    """Checker.load on a byte string; the documented rules are judged on an independent reading of the bytes"""
+    import pktcommon
+    Component, Name, compile_lvs, Checker, SemanticError, LvsModelError, DFN, bny = L.mods()
+    wire = bytes.fromhex(case['wire'])
+    seen = doc_read(wire)
+    res = {'bytes': True, 'reader': 'doc' if seen is not None else 'none',
+           'broken': doc_rules_broken(seen, bny) if seen is not None else None,
+           'has_start': seen is not None and seen.start_id is not None}
+    try:
+        ck = Checker.load(wire, fns)
+    except Exception as e:              # noqa
+        res['load'] = pktcommon.exc_name(e)
+        return res
+    if ck.model.named_pattern_cnt is None:
+        res['load'] = 'ok-nocnt'
+        return res
+    res['load'] = 'ok'
+    L.cap_steps(ck)
+    names = [L.name_bytes(nm) for nm in case['names']]
+    res['matches'] = []
+    for nb in names:
+        outs, exc = L.impl_match(ck, nb)
+        res['matches'].append([outs, exc])
+    res['checks'] = [L.impl_check(ck, p, k) for p in names for k in names]
+    return res
+
+
 # ------------------------------------------------------------------------------------------ model
 def model_line(case, impl):
+    if case['kind'] == 'bytes':
+        names = [L.name_bytes(nm) for nm in case['names']]
+        return 'C13 loadbytes %s %s %s' % (case['wire'] or '-', L.enc_env(case.get('fns', L.FN_NAMES)),
+                                          '/'.join(L.enc_name(n) for n in names))
     if case['kind'] == 'schema':
         # the Lean side starts from the schema AST: compiler model, then the loader model on its output
         return 'C13 csanity ' + L.enc_schema(case['schema'])
@@ -706,6 +1052,8 @@ def model_obs(answer, case, impl):
         impl['_exact'] = exact              # pools equal only up to numbering are compared in canonical form
         return {'compile': 'ok', 'node_pool': parts[1] if exact else L.canon_pool(parts[1], parts[2]), 'checker': parts[3]}
     assert answer.startswith('ok'), answer[:100]
+    if parts[1] == 'accepted-nocnt':
+        return {'load': 'ok-nocnt'}
     if parts[1] != 'accepted':
         return {'load': parts[1]}
     ms = [_canon_model_match(r) for r in parts[2].split('/')]
@@ -734,7 +1082,9 @@ def oracle(case, impl):
                 return (f"schema with static error {impl['static_errors']} is not rejected with SemanticError "
                         f"(compile={impl['compile']}, checker={impl.get('checker')})")
             return None
-        if impl['may_self_sign']:
+        # "no name pattern is, directly or transitively, its own signer": name patterns told apart by their keys
+        # (compile_sane_keys; the shape criterion may_self_sign is coarser and only reported in the tags)
+        if impl.get('key_self_sign', impl['may_self_sign']):
             return None
         if outcome != 'ok':
             return f'well-formed schema without self-signing is rejected: compile={impl["compile"]} checker={impl.get("checker")}'
@@ -743,6 +1093,16 @@ def oracle(case, impl):
         return None
     if impl['load'].startswith('unencodable'):
         return None
+    if impl.get('bytes'):
+        # bytes that do not read as the documented layout: whatever leaves Checker.load must be a documented decoding
+        # error or one of the two documented error classes (TypeError only for bytes without StartId)
+        allowed = {'ok', 'ok-nocnt', 'LvsModelError', 'SemanticError', 'DecodeError', 'IndexError', 'ValueError', 'struct.error'}
+        if impl['load'] == 'TypeError' and impl['has_start']:
+            return 'Checker.load raises TypeError on bytes that carry a StartId'
+        if impl['load'] not in allowed | {'TypeError'}:
+            return f"Checker.load raises {impl['load']}: neither a decoding error nor a documented model error"
+        if impl['load'] in ('DecodeError', 'IndexError', 'ValueError', 'struct.error'):
+            return None         # the bytes do not decode (e.g. an identifier that is not UTF-8): there is no model to judge
     if impl['broken'] and impl['load'] != 'LvsModelError':
         return f"model breaking the documented sanity rule '{impl['broken']}' is not rejected with LvsModelError (load={impl['load']})"
     if impl.get('broken_mem') and impl.get('direct') != 'LvsModelError':
@@ -757,7 +1117,7 @@ def oracle(case, impl):
 
 
 def nontrivial(case, impl):
-    return case['kind'] == 'model' or case.get('inject') is not None
+    return case['kind'] in ('model', 'bytes') or case.get('inject') is not None or bool(case.get('merge'))
 
 
 def tags(case, impl):
@@ -766,10 +1126,20 @@ def tags(case, impl):
         if case.get('early_def'):
             t.append('error-in-earlier-definition-of-redefined-rule:' + case['inject'])
         t.append('outcome:' + (impl['compile'] if impl['compile'] != 'ok' else impl.get('checker', '?')))
-        if impl['may_self_sign']:
-            t.append('may-self-sign(no demand)')
+        if impl.get('key_self_sign'):
+            t.append('self-signing-by-keys(no demand)')
+        elif impl['may_self_sign']:
+            t.append('self-signing-by-shape-only(acceptance demanded)')
+        if case.get('merge'):
+            t.append('merge-motif:' + (impl['compile'] if impl['compile'] != 'ok' else impl.get('checker', '?')) +
+                     (':temp-free' if impl.get('temp_free') else ':temporaries'))
         if case.get('corpus'):
             t.append('corpus:%s:%s' % (case['corpus'], impl['compile'] if impl['compile'] != 'ok' else impl.get('checker', '?')))
+        return t
+    if case['kind'] == 'bytes':
+        t = ['bytes:' + case.get('how', '?'), 'bytes-load:' + impl['load'], 'rules-read-by:' + str(impl.get('reader'))]
+        if impl.get('broken'):
+            t.append('breaks:' + impl['broken'])
         return t
     mu = case['mut']
     t = ['mut:' + mut_kind(mu), 'load:' + impl['load'], 'rules-read-by:' + str(impl.get('reader'))]
@@ -794,6 +1164,8 @@ def finding_key(case, impl, why):
         return 'static-error-not-rejected-' + '-'.join(impl['static_errors'])
     if 'terminate' in why:
         return 'accepted-model-nontermination'
+    if 'Checker.load raises' in why:
+        return 'load-raises-undocumented-' + str(impl.get('load'))
     if 'in-memory' in why:
         return 'broken-rule-accepted-in-memory-' + str(impl.get('broken_mem')) + '-' + str(impl.get('direct'))
     return 'broken-rule-accepted-' + str(impl.get('broken')) + '-' + str(impl.get('load'))
@@ -805,14 +1177,16 @@ LEVEL_TEXT = ('Lean 4 theorems over a hand-written model of Checker._sanity_chec
               'model the iterative back-tracking search ends within an explicit bound stepBound(maxPE, |name|) for every name, '
               'context and user-function dictionary; check only runs such searches. The compiler (compiler.py, all passes as written) is '
               'modelled as well: it raises exactly on the schemas with a static error of the listed kinds, and then SemanticError; every '
-              'emitted model is structurally sane and accepted iff there is no signing cycle among its nodes. Tied to the code on every run by differential '
+              'emitted model is structurally sane and accepted iff there is no signing cycle among its nodes, iff the merge-key paths of its rule chains do not sign each other in a cycle (for schemas without temporary patterns: iff no name pattern of the text is its own signer). Checker.load is modelled on bytes (decoder model of C07/C08 + loader) and total with documented error classes. Tied to the code on every run by differential '
               'execution: schema ASTs (well-formed and with one injected error) through the Lean compiler + loader vs compile_lvs + Checker '
               '(node pools compared), the compiled model against the real Checker.load/match/check on single-field corruptions of '
               'compiled models, plus the property oracle (documented rules, step cap, static errors) on the implementation.'
               " VERSION / MIN_SUPPORTED_VERSION, the Type numbers and field order of the binary model classes (tied to C08's shipped LvsModel schema), the loader's ordered rule list, the compiler's static errors with their exception classes and the except tuple of _gen_pattern_numbers are regenerated from the source on every run (lean/NdnGen/C13.lean) and pinned by theorems closed by evaluation (NdnProofs/Props/C13Tables.lean).")
 LEVEL_NOTE = ('Proof is about the model; model=code is sampled. The schema-level half is proved for the compiler model (raises exactly on '
-              'static errors, SemanticError only; output sane; accepted iff no node-level signing cycle; accepted if no shape of a name '
-              'pattern is the shape of one of its own signers; a counterexample shows that rule-level acyclicity is not enough); the exact '
-              'source-level criterion for a signing cycle (equal merge-key paths) is not proved (see compile_sane_partial).')
+              'static errors, SemanticError only; output sane; accepted iff no node-level signing cycle iff the merge-key paths of the '
+              'chains do not sign each other in a cycle; at the level of the text: accepted if no name pattern is its own signer (name '
+              'patterns told apart by their keys), and iff for schemas without temporary patterns; counterexamples show that rule-level '
+              'acyclicity is not enough). Checker.load is total on byte strings with the stated error classes. Not proved: the exact '
+              'text-level criterion for schemas with temporary patterns (see compile_sane_partial).')
 TECHNIQUE = 'Lean 4 proof (simulation of the iterative search by structural recursion; dfs soundness/completeness with a pigeonhole argument; invariants of the compiler passes; Kahn both directions) + model/implementation correspondence check (compiler, loader, matcher) + schema-level oracle'
 DESIGN_REF = 'DESIGN.md section 7, C13; findings F10, F16'
